@@ -26,25 +26,35 @@ def D(s):
     return textwrap.dedent(s).strip('\n') + '\n'
 
 
-def run(r, cases, seed, finding=None):
-    """cases: iterable of (key, src) or (key, src, finding)"""
-    for k, c in enumerate(cases):
-        key, src = c[0], c[1]
-        fid = c[2] if len(c) > 2 else finding
-        sd = seed + k
-        try:
-            fails, n = E.run_case(src, seed=sd)
-        except Exception as e:   # the case text itself failed (construction of the module raises)
-            fails, n = [dict(what='building the module raises', observed=f'{type(e).__name__}: {str(e).splitlines()[0][:200]}', expected=None)], 0
-        for _ in range(max(n, 1)):
-            r.case(key)
-        seen = set()
-        for f in fails:
-            if f['what'] in seen:
-                continue
-            seen.add(f['what'])
-            extra = {k2: v for k2, v in f.items() if k2 not in ('what', 'observed', 'expected')}
-            r.check(False, f['what'], dict(case=key, seed=sd, **extra), f['observed'], f['expected'], replay_code=replay(src, sd), finding=fid)
+def run(r, cases, seed, finding=None, symptoms=None, reps=1):
+    """cases: iterable of (key, src) or (key, src, finding); symptoms: {text in the observed exception: finding id};
+    reps: number of passes with different engine seeds (the generated data, seeds and directions all depend on it)"""
+    cases = list(cases)
+    for rep in range(reps):
+        for k, c in enumerate(cases):
+            key, src = c[0], c[1]
+            fid = c[2] if len(c) > 2 else finding
+            sd = seed + k + 7919 * rep
+            try:
+                fails, n = E.run_case(src, seed=sd)
+            except Exception as e:   # the case text itself failed (construction of the module raises)
+                fails, n = [dict(what='building the module raises', observed=f'{type(e).__name__}: {(str(e).splitlines() or [""])[0][:200]}', expected=None)], 0
+            for _ in range(max(n, 1)):
+                r.case(key)
+            seen = set()
+            for f in fails:
+                if f['what'] in seen:
+                    continue
+                seen.add(f['what'])
+                extra = {k2: v for k2, v in f.items() if k2 not in ('what', 'observed', 'expected')}
+                for text, sid in (symptoms or {}).items():
+                    if isinstance(f['observed'], str) and text in f['observed']:
+                        fid = sid
+                r.check(False, f['what'], dict(case=key, seed=sd, **extra), f['observed'], f['expected'], replay_code=replay(src, sd), finding=fid)
+
+
+def reps(tier, n=3):
+    return 1 if tier == 'quick' else n
 
 
 # ------------------------------------------------------------------------------------------------------------------
@@ -74,17 +84,15 @@ ZKINDS = {
 def elementwise_cases(tier):
     for xk, xsrc in XKINDS.items():
         for opt in ("", ", scaling=3.5", ", scaling=-2.0", ", scaling=15.0, minval=0.5", ", scaling=15.0, maxval=0.25", ", minval=-1.7", ", scaling=1.0, maxval=1e3"):
-            if xk == 'cvec' and 'val' in opt:
-                pass   # a constraint value on complex data is still an affine map
             yield (('Scaling', xk, opt), D(f"""
-                rng = np.random.default_rng(11)
+                rng = np.random.default_rng([11, SEED])
                 {xsrc}
                 m = pym.Scaling(pym.Signal('x', x), pym.Signal('y'){opt})
                 MODE = 'linear'; POINTS = 3
                 """))
     for xk in ('pyfloat', 'npfloat', '0d', 'vec', 'mat', 'vec1'):
         yield (('MakeComplex', xk), D(f"""
-            rng = np.random.default_rng(12)
+            rng = np.random.default_rng([12, SEED])
             {XKINDS[xk]}
             y = x*0.5 - 0.3 if not isinstance(x, np.ndarray) else np.asarray(rng.standard_normal(x.shape))
             m = pym.MakeComplex([pym.Signal('x', x), pym.Signal('y', y)], pym.Signal('z'))
@@ -94,9 +102,9 @@ def elementwise_cases(tier):
         for cls in ('RealPart', 'ImagPart', 'ComplexNorm'):
             if zk == 'realvec' and cls == 'ImagPart':
                 continue   # the imaginary part of real data: the sensitivity is purely imaginary, nothing to pair with
-            mode = "MODE = 'linear'" if cls != 'ComplexNorm' else "MODE = 'smooth'; H0 = 2e-2; POINTS = 2"
+            mode = "MODE = 'linear'" if cls != 'ComplexNorm' else "MODE = 'smooth'; H0 = 2e-2; POINTS = 2; PSTEP = 0.1"
             yield ((cls, zk), D(f"""
-                rng = np.random.default_rng(13)
+                rng = np.random.default_rng([13, SEED])
                 {zsrc}
                 m = pym.{cls}(pym.Signal('z', z), pym.Signal('y'))
                 {mode}
@@ -106,7 +114,7 @@ def elementwise_cases(tier):
 @bound('Scaling x {objective, scaling 3.5/-2, min/max constraint forms} x {python/numpy scalar, 0-d, 1-vector, vector, negative, matrix, complex vector}, 3 points on one object (scale factor frozen by the first call); '
        'MakeComplex on 6 input kinds; RealPart/ImagPart/ComplexNorm on python complex, 0-d, vector, matrix, purely imaginary and real data; seeds random/unit/integer, accumulation')
 def elementwise(r, tier, seed):
-    run(r, elementwise_cases(tier), seed)
+    run(r, elementwise_cases(tier), seed, reps=reps(tier, 3))
 
 
 # ------------------------------------------------------------------------------------------------------------------
@@ -149,16 +157,16 @@ def aggregation_cases(tier):
                         continue
                     # (a) plain module: the reference is response() itself
                     yield ((name, n, scale, par, 'plain'), D(f"""
-                        rng = np.random.default_rng({n})
+                        rng = np.random.default_rng([{n}, SEED])
                         x = {scale}*(0.3 + rng.random({n}))
                         m = pym.{name}(pym.Signal('x', x), pym.Signal('y'), {par})
-                        MODE = 'smooth'; H0 = {scale}*min(1e-2, 0.1/abs({par})); POINTS = 2; PSTEP = 0.05*{scale}
+                        MODE = 'smooth'; H0 = {f'{scale}*min(1e-2, 0.1/abs({par}))' if name == 'PNorm' else f'min({scale}*1e-2, 0.1/abs({par}))'}; POINTS = 2; PSTEP = 0.05*{scale}
                         """))
     # (a') p-norm of data of both signs (differentiable away from zero entries; the module only warns)
     for n in (2, 5):
         for par in (2.0, 3.0, 4.0, 7.0):
             yield (('PNorm', n, par, 'mixed signs'), D(f"""
-                rng = np.random.default_rng({n})
+                rng = np.random.default_rng([{n}, SEED])
                 x = (0.3 + rng.random({n}))*np.where(np.arange({n}) % 2, -1.0, 1.0)
                 m = pym.PNorm(pym.Signal('x', x), pym.Signal('y'), {par})
                 MODE = 'smooth'; H0 = 1e-2; POINTS = 2; PSTEP = 0.05
@@ -169,14 +177,14 @@ def aggregation_cases(tier):
         for n in ((2, 9) if tier == 'quick' else (2, 3, 9, 25)):
             for par in ((4.0, -6.0) if tier == 'quick' else (4.0, -6.0, 20.0, -20.0)):
                 for damp in (None, 0.0, 0.4):
-                    for aset in (asets if n > 2 else asets[:5]):   # with two values the stronger settings leave an empty set
+                    for aset in (asets if n > 3 else asets[:5]):   # with two or three values the stronger settings can leave an empty set
                         if damp is None and aset is None:
                             continue
                         which = 'max' if par > 0 else 'min'
                         sc = 'None' if damp is None else f"pym.AggScaling('{which}', {damp})"
                         ac = 'None' if aset is None else f"pym.AggActiveSet{aset}"
                         yield ((name, n, par, damp, aset), AGG_REF + D(f"""
-                            rng = np.random.default_rng({n})
+                            rng = np.random.default_rng([{n}, SEED])
                             x = 0.3 + rng.random({n})
                             ASET = {aset}
                             m = pym.{name}(pym.Signal('x', x), pym.Signal('y'), {par}, scaling={sc}, active_set={ac})
@@ -191,7 +199,7 @@ def aggregation_cases(tier):
 @bound('PNorm/KSFunction/SoftMinMax, n in {1,2,7} [quick] / {1,2,3,7,20}, parameters +-2..30, positive data on scales 0.02/1/40, PNorm also on data of both signs, 2 points per object (reference = extrapolated differences of response()); '
        'with AggScaling(min/max, damping none/0/0.4) x 6 active-set settings, n in {2,9} [quick], 3 points per object: scaling factor and active set frozen, closed-form reference')
 def aggregation(r, tier, seed):
-    run(r, aggregation_cases(tier), seed)
+    run(r, aggregation_cases(tier), seed, reps=reps(tier, 2))
 
 
 # ------------------------------------------------------------------------------------------------------------------
@@ -246,7 +254,7 @@ def einsum_supported(ops, out):
 
 
 EIN_SRC = """
-rng = np.random.default_rng({s})
+rng = np.random.default_rng([{s}, SEED])
 DIM = dict(i=2, j=3, k=4, l=2)
 ops = {ops!r}
 cplx = {cplx!r}
@@ -268,7 +276,7 @@ def einsum_cases(tier, seed, supported=True):
     three = [e for e in allx if len(e[0]) == 3]
     rng = np.random.default_rng(seed + 17)
     if supported:
-        n2, n3 = (70, 70) if tier == 'quick' else (600, 900)
+        n2, n3 = (60, 60) if tier == 'quick' else (600, 900)
     else:
         n2, n3 = 3, 3
         one = one[:4]
@@ -289,14 +297,14 @@ def einsum_cases(tier, seed, supported=True):
     if supported:
         for cz in (False, True):
             yield (('ii->', cz), D(f"""
-                rng = np.random.default_rng(5)
+                rng = np.random.default_rng([5, SEED])
                 A = rng.integers(-3, 4, (4, 4)).astype(float) + ({'1j*rng.integers(-3, 4, (4, 4))' if cz else '0'})
                 m = pym.EinSum(pym.Signal('A', A), pym.Signal('y'), expression='ii->')
                 MODE = 'poly'; TOL = 1e-12
                 """))
 
 
-@bound('EinSum: the named table of the docstring + all 1-operand expressions + 70/70 [quick] (600/900 thorough) sampled 2-/3-operand expressions out of the complete enumeration (<=3 operands, rank<=3, <=4 distinct '
+@bound('EinSum: the named table of the docstring + all 1-operand expressions + 60/60 [quick] (600/900 thorough) sampled 2-/3-operand expressions out of the complete enumeration (<=3 operands, rank<=3, <=4 distinct '
        'subscripts, no repeats, explicit output) restricted to the region where every subscript re-appears in the output or another operand; plus ii->; integer data of sizes 2,3,4,2, real / all complex / one complex operand')
 def einsum(r, tier, seed):
     run(r, einsum_cases(tier, seed), seed)
@@ -308,7 +316,7 @@ def concat_cases():
     combos = [('vec3',), ('npfloat',), ('0d', 'vec3'), ('vec3', 'vec5', 'vec1'), ('vec5', '0d', 'row', 'npfloat', 'vec3'), ('cvec', 'vec3'), ('vec3', 'cvec', '0d'), ('vec3', 'empty', 'vec5'), ('row', 'row')]
     for c in combos:
         yield (('ConcatSignal', c), D(f"""
-            rng = np.random.default_rng(3)
+            rng = np.random.default_rng([3, SEED])
             xs = [{', '.join(kinds[k] for k in c)}]
             m = pym.ConcatSignal([pym.Signal('s%d' % i, x) for i, x in enumerate(xs)], pym.Signal('y'))
             MODE = 'linear'
@@ -317,7 +325,7 @@ def concat_cases():
 
 @bound('ConcatSignal of 1..5 inputs: numpy scalars, 0-d arrays, vectors of lengths 0,1,3,5, (1,4) rows, complex vectors mixed with real ones')
 def concat(r, tier, seed):
-    run(r, concat_cases(), seed)
+    run(r, concat_cases(), seed, reps=reps(tier, 3))
 
 
 # ------------------------------------------------------------------------------------------------------------------
@@ -351,7 +359,7 @@ def assembly_cases(tier):
                 bcd = ['None', '0.0', '7.5'][k % 3]
                 bcsrc = {'None': 'bc = None', 'perm': 'bc = rng.permutation(n)[:max(1, n//4)]', 'list': 'bc = [int(b) for b in rng.permutation(n)[:2]]', 'all_but_one': 'bc = np.arange(n)[::-1][:n-1]'}[bc]
                 yield (('AssembleGeneral', g, ndof, bc, mt, bcd, addc, cplx_x, cplx_e), D(f"""
-                    rng = np.random.default_rng({k})
+                    rng = np.random.default_rng([{k}, SEED])
                     {dom_src(g, UNITS[k % 2])}
                     ned = dom.elemnodes*{ndof}; n = dom.nnodes*{ndof}
                     elmat = rng.standard_normal((ned, ned)){' + 1j*rng.standard_normal((ned, ned))' if cplx_e else ''}
@@ -369,7 +377,7 @@ def assembly_cases(tier):
                 bcs = 'None' if bc == 'None' else 'np.array([3, 0, 2])'
                 for plane in ("'strain'", "'stress'"):
                     yield (('AssembleStiffness', g, u, bc, plane), D(f"""
-                        rng = np.random.default_rng(1)
+                        rng = np.random.default_rng([1, SEED])
                         {dom_src(g, u)}
                         x = 0.1 + rng.random(dom.nel)
                         m = pym.AssembleStiffness(pym.Signal('x', x), pym.Signal('K'), dom, e_modulus=2.5, poisson_ratio=0.25, plane={plane}, bc={bcs}, bcdiagval=3.0)
@@ -378,7 +386,7 @@ def assembly_cases(tier):
                         """))
                 for ndof in (1, 2):
                     yield (('AssembleMass', g, u, bc, ndof), D(f"""
-                        rng = np.random.default_rng(2)
+                        rng = np.random.default_rng([2, SEED])
                         {dom_src(g, u)}
                         x = 0.1 + rng.random(dom.nel)
                         m = pym.AssembleMass(pym.Signal('x', x), pym.Signal('M'), dom, material_property=1.7, ndof={ndof}, bc={bcs})
@@ -386,7 +394,7 @@ def assembly_cases(tier):
                         SEEDS = [['rand'], ['cdyad'], ['unit']]
                         """))
                 yield (('AssemblePoisson', g, u, bc), D(f"""
-                    rng = np.random.default_rng(3)
+                    rng = np.random.default_rng([3, SEED])
                     {dom_src(g, u)}
                     x = 0.1 + rng.random(dom.nel)
                     m = pym.AssemblePoisson(pym.Signal('x', x), pym.Signal('P'), dom, material_property=0.6, bc={bcs})
@@ -399,7 +407,7 @@ def assembly_cases(tier):
        'non-symmetric (some complex) element matrix, real/complex scaling with an exact zero, unit and 0.5x1.5x2 element sizes; seeds dense real/complex, real/complex DyadCarrier, single-entry, integer; '
        'AssembleStiffness (plane strain/stress) / AssembleMass (1,2 dofs) / AssemblePoisson on 2x3, 1x2, 2x1x2 with and without bc')
 def assembly(r, tier, seed):
-    run(r, assembly_cases(tier), seed)
+    run(r, assembly_cases(tier), seed, reps=reps(tier, 3))
 
 
 def elemop_cases(tier):
@@ -414,7 +422,7 @@ def elemop_cases(tier):
                         continue
                     cplx = k % 4 == 0
                     yield (('ElementOperation', g, ndof, prefix, pernode, cplx), D(f"""
-                        rng = np.random.default_rng({k})
+                        rng = np.random.default_rng([{k}, SEED])
                         {dom_src(g, UNITS[k % 2])}
                         B = rng.standard_normal({prefix} + (dom.elemnodes*{1 if pernode else ndof},))
                         u = rng.standard_normal(dom.nnodes*{ndof}){' + 1j*rng.standard_normal(dom.nnodes*%d)' % ndof if cplx else ''}
@@ -426,7 +434,7 @@ def elemop_cases(tier):
             dim = len(g)
             for opt in ('voigt=True', 'voigt=False'):
                 yield (('Strain', g, u, opt), D(f"""
-                    rng = np.random.default_rng(4)
+                    rng = np.random.default_rng([4, SEED])
                     {dom_src(g, u)}
                     u = rng.standard_normal(dom.nnodes*{dim})
                     m = pym.Strain(pym.Signal('u', u), pym.Signal('e'), dom, {opt})
@@ -434,14 +442,14 @@ def elemop_cases(tier):
                     """))
             for opt in ("plane='strain'", "plane='stress', e_modulus=3.0, poisson_ratio=0.2"):
                 yield (('Stress', g, u, opt), D(f"""
-                    rng = np.random.default_rng(5)
+                    rng = np.random.default_rng([5, SEED])
                     {dom_src(g, u)}
                     u = rng.standard_normal(dom.nnodes*{dim}) + 1j*rng.standard_normal(dom.nnodes*{dim})
                     m = pym.Stress(pym.Signal('u', u), pym.Signal('s'), dom, {opt})
                     MODE = 'linear'
                     """))
                 yield (('ThermoMechanical', g, u, opt), D(f"""
-                    rng = np.random.default_rng(6)
+                    rng = np.random.default_rng([6, SEED])
                     {dom_src(g, u)}
                     x = rng.random(dom.nel)
                     m = pym.ThermoMechanical(pym.Signal('xT', x), pym.Signal('f'), dom, alpha=0.01, {opt})
@@ -449,7 +457,7 @@ def elemop_cases(tier):
                     """))
             for ndof in (1, 2, 3):
                 yield (('ElementAverage', g, u, ndof), D(f"""
-                    rng = np.random.default_rng(7)
+                    rng = np.random.default_rng([7, SEED])
                     {dom_src(g, u)}
                     v = rng.standard_normal(dom.nnodes*{ndof})
                     m = pym.ElementAverage(pym.Signal('v', v), pym.Signal('ve'), dom)
@@ -458,7 +466,7 @@ def elemop_cases(tier):
         for ndof in (1, 2):
             for lead in ('', '3, '):
                 yield (('NodalOperation', g, ndof, lead), D(f"""
-                    rng = np.random.default_rng(8)
+                    rng = np.random.default_rng([8, SEED])
                     {dom_src(g, UNITS[1])}
                     A = rng.standard_normal(({lead}dom.elemnodes*{ndof},))
                     x = rng.standard_normal(({lead}dom.nel,))
@@ -470,7 +478,7 @@ def elemop_cases(tier):
 @bound('ElementOperation on 5 2D + 3 3D grids x dofs/node 1..3 x operator shapes (k,), (3,k), (2,3,k) given per dof or per node (expanded at the first call), real/complex nodal data, 2 points per object; '
        'Strain (voigt on/off), Stress and ThermoMechanical (plane strain/stress, complex displacements for Stress), ElementAverage (1..3 dofs), NodalOperation (vector and (3,nel) block input); unit and non-unit element sizes')
 def element_operations(r, tier, seed):
-    run(r, elemop_cases(tier), seed)
+    run(r, elemop_cases(tier), seed, reps=reps(tier, 3))
 
 
 BCS = ["'symmetric'", "'edge'", "'wrap'", "0.0", "1.0", "0.3"]
@@ -484,7 +492,7 @@ def filter_cases(tier, seed):
         for b in BCS:
             k += 1
             yield (('FilterConv', g, 'all', b), D(f"""
-                rng = np.random.default_rng({k})
+                rng = np.random.default_rng([{k}, SEED])
                 {dom_src(g, UNITS[0])}
                 x = rng.random(dom.nel)
                 m = pym.FilterConv(pym.Signal('x', x), pym.Signal('y'), dom, radius={[1.5, 2.0, 2.6][k % 3]}, xmin_bc={b}, xmax_bc={b}, ymin_bc={b}, ymax_bc={b}, zmin_bc={b}, zmax_bc={b})
@@ -497,7 +505,7 @@ def filter_cases(tier, seed):
             if tier == 'quick' and k % 2:
                 continue
             yield (('FilterConv', 'pair', axis, b0, b1), D(f"""
-                rng = np.random.default_rng({k})
+                rng = np.random.default_rng([{k}, SEED])
                 {dom_src((3, 4), UNITS[0])}
                 x = rng.random(dom.nel)
                 w = rng.random({(5, 3) if axis == 'x' else (3, 5)})
@@ -517,7 +525,7 @@ def filter_cases(tier, seed):
         over = "m.override_values(np.s_[0, :, :], 0.7); m.override_values(np.s_[-1, 0, 0], 0.0)" if i % 7 == 3 else ""
         cplx = " + 1j*rng.random(dom.nel)" if i % 6 == 5 else ""
         yield (('FilterConv', 'mix', g, tuple(b), kern, bool(over), bool(cplx)), D(f"""
-            rng = np.random.default_rng({k})
+            rng = np.random.default_rng([{k}, SEED])
             {dom_src(g, UNITS[i % 2])}
             x = rng.random(dom.nel){cplx}
             m = pym.FilterConv(pym.Signal('x', x), pym.Signal('y'), dom, {kern}, xmin_bc={b[0]}, xmax_bc={b[1]}, ymin_bc={b[2]}, ymax_bc={b[3]}, zmin_bc={b[4]}, zmax_bc={b[5]})
@@ -532,7 +540,7 @@ def filter_cases(tier, seed):
                 if tier == 'quick' and k % 3 == 0:
                     continue
                 yield (('DensityFilter', g, rad, nonpad), D(f"""
-                    rng = np.random.default_rng({k})
+                    rng = np.random.default_rng([{k}, SEED])
                     {dom_src(g, UNITS[k % 2])}
                     x = rng.random(dom.nel){' + 1j*rng.random(dom.nel)' if k % 8 == 0 else ''}
                     m = pym.DensityFilter(pym.Signal('x', x), pym.Signal('y'), dom, radius={rad}, nonpadding={nonpad})
@@ -541,7 +549,7 @@ def filter_cases(tier, seed):
     for n in (1, 4, 9):
         for nonpad in ('None', 'np.array([0])'):
             yield (('Filter', n, nonpad), D(f"""
-                rng = np.random.default_rng({n})
+                rng = np.random.default_rng([{n}, SEED])
                 class UserFilter{n}(pym.Filter):
                     @staticmethod
                     def _calculate_h(H):
@@ -557,7 +565,7 @@ def filter_cases(tier, seed):
 @bound('FilterConv: each of symmetric/edge/wrap/0/1/0.3 on all sides (4x3,1x5,3x1,2x2x3), all 36 ordered pairs per axis with a non-symmetric 5x3 kernel (every second one in quick), 30 [300 thorough] random side mixtures '
        'with non-symmetric kernels of 9 shapes, absolute radius on 0.5x1.5x2 elements, override_values, complex data; DensityFilter on 7 grids x radius 1,1.5,2,2.7,4.2 x nonpadding none/every second/one; user Filter with symmetric H')
 def filters(r, tier, seed):
-    run(r, filter_cases(tier, seed), seed)
+    run(r, filter_cases(tier, seed), seed, reps=reps(tier, 2))
 
 
 # ------------------------------------------------------------------------------------------------------------------
@@ -565,7 +573,7 @@ def filters(r, tier, seed):
 # ------------------------------------------------------------------------------------------------------------------
 def overhang_cases(tier):
     k = 0
-    params = ["", ", xi_0=0.3, p=10.0, eps=1e-2", ", xi_0=0.7, p=6.0, eps=1e-3", ", p=80.0, eps=1e-5"]
+    params = ["", ", xi_0=0.3, p=10.0, eps=1e-2", ", xi_0=0.7, p=12.0, eps=1e-3", ", p=80.0, eps=1e-5"]
     sizes2 = [(1, 1), (4, 1), (1, 4), (2, 2), (3, 2), (2, 5), (4, 3)] + ([(7, 5), (5, 8)] if tier != 'quick' else [])
     dirs2 = [(1, 0), (-1, 0), (0, 1), (0, -1), (0.0, -2.0, 0.0), 'x', '-x', '+y', 'y-', 'Y']
     for g in sizes2:
@@ -576,12 +584,12 @@ def overhang_cases(tier):
                     continue
                 exact = "x[rng.integers(0, dom.nel)] = 0.0; x[rng.integers(0, dom.nel)] = 1.0" if (par == "" and k % 3 == 0) else ""
                 yield (('OverhangFilter', g, d, par, bool(exact)), D(f"""
-                    rng = np.random.default_rng({k})
+                    rng = np.random.default_rng([{k}, SEED])
                     {dom_src(g, UNITS[k % 2])}
                     x = 0.05 + 0.95*rng.random(dom.nel)
                     {exact}
                     m = pym.OverhangFilter(pym.Signal('x', x), pym.Signal('y'), dom, direction={d!r}{par})
-                    MODE = {"'cstep'" if (exact or k % 2) else "'smooth'"}; H0 = 1e-3; POINTS = 2
+                    MODE = {"'cstep'" if (exact or k % 2) else "'smooth'"}; H0 = 1e-3; POINTS = 2; PSTEP = 0.01
                     """))
     sizes3 = [(1, 1, 1), (2, 2, 2), (3, 2, 2), (2, 1, 3), (1, 3, 2), (3, 3, 3)] + ([(4, 3, 5)] if tier != 'quick' else [])
     dirs3 = [(1, 0, 0), (-1, 0, 0), (0, 1, 0), (0, -1, 0), (0, 0, 1), (0, 0, -1), 'z', '-z', 'x-', '+y']
@@ -589,22 +597,22 @@ def overhang_cases(tier):
         for d in dirs3:
             for ns in (5, 9, None):
                 k += 1
-                if tier == 'quick' and k % 3 == 0:
+                if tier == 'quick' and k % 2 == 0:
                     continue
-                par = params[k % 4]
+                par = params[(k // 2) % 4]
                 yield (('OverhangFilter', g, d, ns, par), D(f"""
-                    rng = np.random.default_rng({k})
+                    rng = np.random.default_rng([{k}, SEED])
                     {dom_src(g, UNITS[k % 2])}
                     x = 0.05 + 0.95*rng.random(dom.nel)
                     m = pym.OverhangFilter(pym.Signal('x', x), pym.Signal('y'), dom, direction={d!r}, nsampling={ns}{par})
-                    MODE = {"'cstep'" if k % 2 else "'smooth'"}; H0 = 1e-3; POINTS = 2
+                    MODE = {"'cstep'" if (k // 2) % 2 else "'smooth'"}; H0 = 1e-3; POINTS = 2; PSTEP = 0.01
                     """))
 
 
-@bound('OverhangFilter 2D on 1x1,4x1,1x4,2x2,3x2,2x5,4x3 x 10 print directions (arrays incl. unnormalised, strings incl. upper case / sign after the letter) x 4 parameter sets (default, p=10/eps=1e-2/xi0=0.3, p=6, p=80), '
+@bound('OverhangFilter 2D on 1x1,4x1,1x4,2x2,3x2,2x5,4x3 x 10 print directions (arrays incl. unnormalised, strings incl. upper case / sign after the letter) x 4 parameter sets (default, p=10/eps=1e-2/xi0=0.3, p=12/xi0=0.7, p=80), '
        'exact 0 and 1 densities; 3D on 1x1x1..3x3x3 x 10 directions x nsampling 5/9/default; single-layer and single-column domains; 2 points per object; seeds random / single entry / integer; reference alternately extrapolated differences and the complex-step derivative (always for exact 0/1 densities)')
 def overhang(r, tier, seed):
-    run(r, overhang_cases(tier), seed)
+    run(r, overhang_cases(tier), seed, reps=reps(tier, 2))
 
 
 # ------------------------------------------------------------------------------------------------------------------
@@ -612,27 +620,28 @@ def overhang(r, tier, seed):
 # ------------------------------------------------------------------------------------------------------------------
 MATSRC = D("""
     def make_matrix(rng, n, kind, sparse=False, diag_only=0):
-        R = rng.standard_normal((n, n))
+        R = np.clip(rng.standard_normal((n, n)), -2.5, 2.5)      # with the shifts below: well conditioned also for n = 1, 2
         if sparse:
             R = R*(rng.random((n, n)) < 0.4)
+            R[-1, -2], R[-2, -1] = 0.7, -0.4      # never a diagonal matrix (the module keeps the solver chosen for the first matrix)
         C = rng.standard_normal((n, n))*(R != 0)
         for k in range(diag_only):          # rows and columns that only hold their diagonal entry (like constrained dofs)
             R[k, :] = 0; R[:, k] = 0; C[k, :] = 0; C[:, k] = 0
         alt = np.where(np.arange(n) % 2, -1.0, 1.0)
         if kind == 'gen':        # real, non-symmetric
-            return R + n*np.eye(n)
+            return R + (n + 2)*np.eye(n)
         if kind == 'sym':        # real symmetric indefinite
-            return (R + R.T)/2 + np.diag(n*alt)
+            return (R + R.T)/2 + np.diag((n + 2)*alt)
         if kind == 'spd':
-            return (R + R.T)/2 + n*np.eye(n)
+            return (R + R.T)/2 + (n + 2)*np.eye(n)
         if kind == 'cgen':
-            return R + 1j*C + n*np.eye(n)
+            return R + 1j*C + (n + 2)*np.eye(n)
         if kind == 'herm':       # Hermitian positive definite
-            return (R + R.T)/2 + 1j*(C - C.T)/2 + n*np.eye(n)
+            return (R + R.T)/2 + 1j*(C - C.T)/2 + (n + 2)*np.eye(n)
         if kind == 'hermind':    # Hermitian indefinite
-            return (R + R.T)/2 + 1j*(C - C.T)/2 + np.diag(n*alt)
+            return (R + R.T)/2 + 1j*(C - C.T)/2 + np.diag((n + 2)*alt)
         if kind == 'csym':       # complex symmetric, not Hermitian
-            return (R + R.T)/2 + 1j*(C + C.T)/2 + n*np.eye(n)
+            return (R + R.T)/2 + 1j*(C + C.T)/2 + (n + 2)*np.eye(n)
         raise ValueError(kind)
     """)
 MCLASS = {'gen': None, 'sym': 'sym', 'spd': 'sym', 'cgen': None, 'herm': 'herm', 'hermind': 'herm', 'csym': 'sym'}
@@ -651,17 +660,21 @@ def linsolve_cases(tier, cg_zero_column=False):
                     k += 1
                     if sparse in ('csr', 'csc_array') and k % 3:
                         continue
-                    if tier == 'quick' and k % 2 and rhs in ('blk1', 'cblk'):
+                    if tier == 'quick' and (k % 2 and rhs in ('blk1', 'cblk') or k % 4 == 3):
                         continue
                     flags = ['', '', ', hermitian=%s' % (MCLASS[kind] == ('sym' if kind in ('sym', 'spd') else 'herm')), ', symmetric=%s' % (MCLASS[kind] == 'sym')][k % 4]
                     if kind in ('herm', 'hermind') and 'symmetric' in flags:
                         flags = ''
                     diag_only = 2 if k % 5 == 0 else 0
                     n = 5 + k % 4
+                    if lda and 'blk' in rhs:
+                        # LDAWrapper stores rounding noise as a database vector when a block holds more independent columns than the space has
+                        # dimensions left (finding C01-lda-dependent-rhs-columns): keep response + all seed columns below n here
+                        n += 9
                     vc = MCLASS[kind] if (MCLASS[kind] or k % 2) else 'pattern+'
                     conv = '' if not sparse else (f"A = sps.{sparse}(A)" if sparse == 'csc_array' else f"A = sps.{sparse}_matrix(A)")
                     yield (('LinSolve', kind, sparse, rhs, lda, flags, diag_only, n), MATSRC + D(f"""
-                        rng = np.random.default_rng({k}); n = {n}
+                        rng = np.random.default_rng([{k}, SEED]); n = {n}
                         A = make_matrix(rng, n, {kind!r}, {bool(sparse)}, {diag_only})
                         {conv}
                         b = {RHS[rhs].replace('N', 'n')}
@@ -682,7 +695,7 @@ def linsolve_cases(tier, cg_zero_column=False):
                 if ('CG(' in solver and rhs == 'blk' and not lda) != cg_zero_column:
                     continue
                 yield (('LinSolve', kind, sparse, rhs, lda, solver), MATSRC + D(f"""
-                    rng = np.random.default_rng({k}); n = 6
+                    rng = np.random.default_rng([{k}, SEED]); n = 6
                     A = make_matrix(rng, n, {kind!r}, {bool(sparse)})
                     {'A = sps.%s_matrix(A)' % sparse if sparse else ''}
                     b = {RHS[rhs].replace('N', 'n')}
@@ -693,21 +706,21 @@ def linsolve_cases(tier, cg_zero_column=False):
     for kind in (('gen', 'cgen', 'sym', 'herm', 'csym') if not cg_zero_column else ()):
         for n in (1, 2, 5):
             yield (('Inverse', kind, n), MATSRC + D(f"""
-                rng = np.random.default_rng({n}); n = {n}
+                rng = np.random.default_rng([{n}, SEED]); n = {n}
                 A = make_matrix(rng, n, {kind!r})
                 m = pym.Inverse(pym.Signal('A', A), pym.Signal('Ainv'))
-                MODE = 'smooth'; H0 = 1e-2; POINTS = 2
+                MODE = 'smooth'; H0 = 1e-2; POINTS = 2; PSTEP = 0.05
                 """))
 
 
 @bound('LinSolve: 7 matrix classes (real general / symmetric indefinite / SPD, complex general / Hermitian PD / Hermitian indefinite / complex symmetric) x dense, csc, csr, csc_array x rhs real/complex vector, (n,3), (n,1), (n,2) blocks '
-       'x LDAWrapper on/off, hermitian=/symmetric= flags, rows holding only a diagonal entry, n = 5..8, 11 explicit solver objects (dense LU/QR/Cholesky/LDL, sparse LU, CG with/without ILU); directions inside the matrix class '
+       'x LDAWrapper on/off, hermitian=/symmetric= flags, rows holding only a diagonal entry, n = 5..8 (14..17 for block data with the LDAWrapper), 11 explicit solver objects (dense LU/QR/Cholesky/LDL, sparse LU, CG with/without ILU); directions inside the matrix class '
        '(symmetric / Hermitian / sparsity pattern, also a few entries outside the pattern), 2 points per object; Inverse on 5 classes, n = 1,2,5')
 def linsolve_inverse(r, tier, seed):
-    run(r, linsolve_cases(tier), seed)
+    run(r, linsolve_cases(tier), seed, reps=reps(tier, 3))
 
 
-def soe_cases(tier, complex_real_inputs=False):
+def soe_cases(tier, complex_real_inputs=False, lda_region=False):
     k = 0
     for kind in ('spd', 'sym', 'csym'):
         for rhs in ('vec', 'blk', 'cvec'):
@@ -715,15 +728,23 @@ def soe_cases(tier, complex_real_inputs=False):
                 continue
             if complex_real_inputs and not (kind == 'csym' and rhs != 'cvec'):
                 continue
+            if lda_region and not (kind == 'spd' and rhs == 'blk'):
+                continue
             for sel in ('free=free, prescribed=pres', 'free=free', 'prescribed=pres', 'free=np.sort(free)'):
                 for fmt in ('csc', 'csr'):
                     k += 1
                     if fmt == 'csr' and k % 4:
                         continue
                     n, nf = [(7, 4), (6, 5), (5, 1), (8, 4)][k % 4]
+                    if rhs == 'blk':
+                        # all response and seed columns fit into the free space and A_fp has at least as many columns as there are load cases,
+                        # so that no block of adjoint loads has dependent columns (see C01-lda-dependent-rhs-columns)
+                        n, nf = [(25, 21), (24, 20), (26, 23), (26, 22)][k % 4]
+                    if lda_region:
+                        n, nf = 24, 23
                     r0, r1 = RHS[rhs].replace('N', 'nf'), RHS[rhs].replace('N', 'n - nf')
                     yield (('SystemOfEquations', kind, rhs, sel, fmt, n, nf), MATSRC + D(f"""
-                        rng = np.random.default_rng({k}); n = {n}; nf = {nf}
+                        rng = np.random.default_rng([{k}, SEED]); n = {n}; nf = {nf}
                         A = sps.{fmt}_matrix(make_matrix(rng, n, {kind!r}, True))
                         perm = rng.permutation(n); free = perm[:nf]; pres = perm[nf:]
                         bf = {r0}; xp = {r1}
@@ -739,7 +760,7 @@ def condensation_cases(tier, kinds=('spd', 'sym')):
             for order in ('perm', 'sorted'):
                 k += 1
                 yield (('StaticCondensation', kind, n, nm, nfree, order), MATSRC + D(f"""
-                    rng = np.random.default_rng({k}); n = {n}
+                    rng = np.random.default_rng([{k}, SEED]); n = {n}
                     A = sps.csc_matrix(make_matrix(rng, n, {kind!r}, True))
                     perm = rng.permutation(n); main = perm[:{nm}]; free = perm[{nm}:{nm + nfree}]
                     {'main = np.sort(main); free = np.sort(free)' if order == 'sorted' else ''}
@@ -749,11 +770,11 @@ def condensation_cases(tier, kinds=('spd', 'sym')):
                     """))
 
 
-@bound('SystemOfEquations: sparse symmetric A (SPD / indefinite real with real data, complex symmetric with complex data), csc/csr, free and/or prescribed sets given (unsorted permutations, sorted), sizes (7,4),(6,5),(5,1),(8,4), '
+@bound('SystemOfEquations: sparse symmetric A (SPD / indefinite real with real data, complex symmetric with complex data), csc/csr, free and/or prescribed sets given (unsorted permutations, sorted), sizes (7,4),(6,5),(5,1),(8,4) ((25,21),(24,20),(26,23),(26,22) for block data), '
        'vector and (.,3) block data, seeds on x and b / x only / b only / single entries; StaticCondensation: sparse real symmetric A (SPD, indefinite), 4 partitions with unsorted / sorted index sets incl. dofs in neither set, '
        'dense and DyadCarrier seeds; symmetric perturbations, 2 points per object (inputs re-set before every response)')
 def partitioned_systems(r, tier, seed):
-    run(r, itertools.chain(soe_cases(tier), condensation_cases(tier)), seed)
+    run(r, itertools.chain(soe_cases(tier), condensation_cases(tier)), seed, reps=reps(tier, 3))
 
 
 # ------------------------------------------------------------------------------------------------------------------
@@ -824,28 +845,35 @@ def eig_cases(tier):
                         realgap = False
                     bsrc = {None: 'B = None', 'spd': 'B = pd_matrix(rng, n)', 'hpd': 'B = pd_matrix(rng, n, True)'}[B]
                     realvec = kind == 'sym' or (kind == 'gen' and B is None)     # real eigenvectors: only the sign convention can switch
+                    if not realvec and n > 5:
+                        continue     # instances away from all switching points of the complex normalisation become too rare
                     vca = {'sym': 'sym', 'herm': 'herm'}.get(kind)
                     vcb = {'spd': 'sym', 'hpd': 'herm'}.get(B)
                     yield (('EigenSolve', kind, B, o, n), EIGSRC + D(f"""
-                        for trial in range(1000):
-                            rng = np.random.default_rng({1000*k} + trial); n = {n}
+                        for trial in range(20000):
+                            rng = np.random.default_rng([{k}, trial, SEED]); n = {n}
                             A = eig_matrix(rng, n, {kind!r})
                             {bsrc}
                             if well_posed(A, B, {herm}, {realgap}):
                                 break
-                        assert trial < 999
+                        assert trial < 19999, 'no well-posed instance generated'
                         ins = [pym.Signal('A', A)] + ([pym.Signal('B', B)] if B is not None else [])
                         m = pym.EigenSolve(ins, [pym.Signal('W'), pym.Signal('Q')]{o})
-                        MODE = 'smooth'; H0 = {1e-3 if realvec else 5e-4}; PSTEP = {3e-3 if realvec else 1e-3}; POINTS = 2; VCLASS = [{vca!r}] + ([{vcb!r}] if B is not None else [])
+                        MODE = 'smooth'; H0 = {2e-4 if realvec else 2e-5}; PSTEP = {3e-3 if realvec else 2e-4}; POINTS = 2; VCLASS = [{vca!r}] + ([{vcb!r}] if B is not None else [])
                         SEEDS = [['rand', 'rand'], ['rand', None], [None, 'rand'], [None, 'unit'], ['unit', None], ['int', 'int']]
                         """))
+
+
+def eig_sparse_cases(tier, pinned=None):
+    k = 66
     for B in (False, True):
         for opt in (', nmodes=3', ', nmodes=3, sigma=0.5', ', nmodes=2, hermitian=True', ', nmodes=1, sigma=-1.0'):
             k += 1
             yield (('EigenSolve sparse', B, opt), D(f"""
                 import scipy.linalg as spla
+                PIN = {pinned}
                 for trial in range(200):
-                    rng = np.random.default_rng({1000*k} + trial); n = 12
+                    rng = np.random.default_rng([{k}, trial, SEED if PIN is None else PIN]); n = 12
                     R = sps.random(n, n, 0.25, random_state=rng).toarray()
                     A = (R + R.T)/2 + np.diag(np.arange(1, n + 1)*1.0)
                     Bd = np.diag(1.0 + rng.random(n)) + 0.1*(np.abs(R) + np.abs(R.T))
@@ -861,9 +889,18 @@ def eig_cases(tier):
 
 @bound('EigenSolve dense: real symmetric, complex Hermitian, real non-symmetric (real spectrum / with a complex pair), complex general; standard and generalized (B real SPD / Hermitian PD); hermitian flag given or detected, '
        'descending / rounding-independent sorting functions; n in {2,5} [quick] / {2,3,5,7}; generated so that eigenvalue gaps > 0.3 and the sign convention is > 0.05 away from switching; seeds: both, eigenvalues only, '
-       'eigenvectors only, a single eigenvector entry, a single eigenvalue, integers; perturbations inside the class, 2 points per object. Sparse (ARPACK shift-invert), n = 12, 1..3 modes, sigma 0/0.5/-1, with and without B, tolerance 1e-5')
+       'eigenvectors only, a single eigenvector entry, a single eigenvalue, integers; perturbations inside the class, 2 points per object.')
 def eigensolve(r, tier, seed):
-    run(r, eig_cases(tier), seed)
+    run(r, eig_cases(tier), seed, reps=reps(tier, 3))
+
+
+SINGULAR = {'Factor is exactly singular': 'C01-eigensolve-sparse-singular-factor'}
+
+
+@bound('EigenSolve sparse (ARPACK shift-invert): symmetric n = 12, 1..3 modes, sigma 0/0.5/-1, with and without sparse SPD B, seeds on eigenvalues and/or eigenvectors incl. single entries, symmetric perturbations, 2 points per object, '
+       'tolerance 1e-5; the sporadic RuntimeError of the eigenvector adjoint (LU of the singular A - lambda*B) is tagged as the known finding')
+def eigensolve_sparse(r, tier, seed):
+    run(r, eig_sparse_cases(tier), seed, symptoms=SINGULAR, reps=reps(tier, 3))
 
 
 # ------------------------------------------------------------------------------------------------------------------
@@ -909,10 +946,10 @@ def math_cases(unused_input=False):
         for ex in exprs.get(kind, []):
             yield (('MathGeneral', kind, ex), SYMPY + D(f"""
                 if not SKIP:
-                    rng = np.random.default_rng(4)
+                    rng = np.random.default_rng([4, SEED])
                     {src}
                     m = pym.MathGeneral([pym.Signal('abcd'[i], x) for i, x in enumerate(xs)], pym.Signal('y'), {ex!r})
-                    MODE = 'smooth'; H0 = 1e-2; POINTS = 2
+                    MODE = 'smooth'; H0 = 1e-2; POINTS = 2; PSTEP = 0.05
                 """))
 
 
@@ -967,28 +1004,45 @@ def finding_cases(tier, seed):
         yield c + ('C01-einsum-summed-index',)
     for expr, shapes in (('ij,jk', ((2, 3), (3, 4))), ('ij,j', ((2, 3), (3,)))):
         yield (('EinSum implicit output', expr), D(f"""
-            rng = np.random.default_rng(1)
+            rng = np.random.default_rng([1, SEED])
             xs = [rng.integers(-3, 4, s).astype(float) for s in {shapes}]
             m = pym.EinSum([pym.Signal('a%d' % i, x) for i, x in enumerate(xs)], pym.Signal('y'), expression={expr!r})
             MODE = 'poly'; TOL = 1e-12
             """), 'C01-einsum-implicit-output')
     for nm, val in (('float', '1.5'), ('int', '3'), ('complex', '1.5-0.5j')):
         yield (('ConcatSignal python scalar', nm), D(f"""
-            rng = np.random.default_rng(1)
+            rng = np.random.default_rng([1, SEED])
             m = pym.ConcatSignal([pym.Signal('a', {val}), pym.Signal('b', rng.standard_normal(3))], pym.Signal('y'))
             MODE = 'linear'
             """), 'C01-concat-python-scalar')
     yield (('ConcatSignal matrix',), D("""
-        rng = np.random.default_rng(1)
+        rng = np.random.default_rng([1, SEED])
         m = pym.ConcatSignal([pym.Signal('a', rng.standard_normal((2, 3))), pym.Signal('b', rng.standard_normal(3))], pym.Signal('y'))
         MODE = 'linear'
         """), 'C01-concat-matrix')
-    for c in soe_cases(tier, complex_real_inputs=True):
+    for c in itertools.islice(soe_cases(tier, complex_real_inputs=True), 4):
         yield c + ('C01-soe-complex-sens-real-input',)
     for c in linsolve_cases(tier, cg_zero_column=True):
         yield c + ('C01-linsolve-cg-zero-seed-column',)
     for c in math_cases(unused_input=True):
         yield c + ('C01-mathgeneral-unused-input',)
+    for kind, sparse in (('spd', True), ('sym', True), ('spd', False), ('herm', True)):
+        yield (('LinSolve', kind, sparse, 'rhs columns [b, 2b, c]'), MATSRC + D(f"""
+            rng = np.random.default_rng([1, SEED]); n = 6
+            A = make_matrix(rng, n, {kind!r}, {sparse})
+            {'A = sps.csc_matrix(A)' if sparse else ''}
+            b1 = rng.standard_normal(n)
+            b = np.stack([b1, 2*b1, rng.standard_normal(n)], axis=1)
+            m = pym.LinSolve([pym.Signal('A', A), pym.Signal('b', b)], pym.Signal('x'))
+            MODE = 'smooth'; H0 = 1e-2; VCLASS = [{MCLASS[kind]!r}, None]
+            SEEDS = [['rand']]
+            """), 'C01-lda-dependent-rhs-columns')
+    for pin, opt in ((57, ', nmodes=3'), (66, ', nmodes=3, sigma=0.5'), (89, ', nmodes=2, hermitian=True')):
+        for c in eig_sparse_cases(tier, pinned=pin):
+            if c[0][1] and c[0][2] == opt:
+                yield (c[0] + (pin,), c[1] + "POINTS = 1; SEEDS = [['rand', 'rand'], [None, 'rand']]\n", 'C01-eigensolve-sparse-singular-factor')
+    for c in itertools.islice(soe_cases(tier, lda_region=True), 2):     # one prescribed dof and three load cases: the adjoint loads A_fp*w are multiples of one vector
+        yield c + ('C01-lda-dependent-rhs-columns',)
     for c in condensation_cases(tier, kinds=('csym',)):
         yield c + ('C01-staticcond-complex',)
 
@@ -1001,6 +1055,10 @@ FINDINGS = {
     'C01-soe-complex-sens-real-input': 'SystemOfEquations with complex symmetric A and real b_f, x_p: the sensitivities of the real inputs are complex and cannot be added to an existing real sensitivity',
     'C01-staticcond-complex': 'StaticCondensation with complex symmetric A: the imaginary part of the condensation operator is dropped in the sensitivity',
     'C01-linsolve-cg-zero-seed-column': 'LinSolve(solver=CG) without LDAWrapper and block data: a seed with a zero column gives nan sensitivities',
+    'C01-lda-dependent-rhs-columns': 'LinSolve (default LDAWrapper) with a symmetric/Hermitian matrix and a right-hand-side block with linearly dependent columns [b, 2b, c] (or more columns than unknowns): '
+                                     'rounding noise is normalised and stored as a solution pair, later (adjoint) solves are wrong by ~1e-2',
+    'C01-eigensolve-sparse-singular-factor': 'EigenSolve on sparse matrices with eigenvector seeds factorises the singular matrix A - lambda*B with a sparse LU; for about 1% of the generated (A, B) '
+                                             'SuperLU meets an exactly zero pivot and sensitivity() raises RuntimeError (instances pinned from seeds 57, 66, 89; depends on the last bits of lambda)',
     'C01-mathgeneral-unused-input': 'MathGeneral with a vector input that does not occur in the expression and a python-scalar output: sensitivity() raises',
 }
 
@@ -1013,7 +1071,7 @@ def make_finding_check(fid):
 
 
 CHECKS = [('elementwise', elementwise), ('aggregation', aggregation), ('einsum', einsum), ('concat', concat), ('assembly', assembly), ('element_operations', element_operations), ('filters', filters), ('overhang', overhang), ('linsolve_inverse', linsolve_inverse), ('partitioned_systems', partitioned_systems),
-          ('eigensolve', eigensolve), ('mathgeneral', mathgeneral), ('outputless', outputless)]
+          ('eigensolve', eigensolve), ('eigensolve_sparse', eigensolve_sparse), ('mathgeneral', mathgeneral), ('outputless', outputless)]
 CHECKS += [('finding_' + fid[4:].replace('-', '_'), make_finding_check(fid)) for fid in FINDINGS]
 
 if os.environ.get('C01_ONLY', '-') != '-':   # development aid: restrict to the checks whose name contains one of the comma separated parts
